@@ -5,7 +5,8 @@ import GoNeat.Driver.Population
 import GoNeat.Driver.Activations
 import GoNeat.Driver.Solver
 import GoNeat.Driver.Experiment
+import GoNeat.Driver.Stats
 
 namespace GoNeat.Driver
-def allOps : List (String × Handler) := geneticsOps ++ operatorOps ++ populationOps ++ activationsOps ++ solverOps ++ experimentOps
+def allOps : List (String × Handler) := geneticsOps ++ operatorOps ++ populationOps ++ activationsOps ++ solverOps ++ experimentOps ++ statsOps
 end GoNeat.Driver
